@@ -5,6 +5,7 @@
 From Coq Require Import String Ascii.
 From Radius Require Import Base.Bytes Base.Guard Base.Res Gen.Consts
   Model.Gen Model.Mem Model.Attrs Model.Packet Model.Passwords Model.Codecs Model.Client Model.Exchange Model.Dict Model.DictMerge Model.MSCHAP Spec.C19 Model.Vendor Model.Helpers Model.Dispatch Spec.C06 Model.Shutdown Model.ShutdownSched Spec.C05 Spec.C10 Spec.C09 Spec.C01 Spec.C03 Spec.C04 Spec.C11.
+From Radius Require Extract.SrcDriver.
 From Radius Require Import Crypto.MD5 Crypto.SHA1 Crypto.MD4 Crypto.DES Crypto.UTF16.
 Open Scope list_scope.
 Open Scope nat_scope.
@@ -626,6 +627,14 @@ Definition dispatch_gen (name : bytes) (bs : list bytes) (zs : list Z) : option 
     end
   else None.
 
+
+(* ---- the translated source, interpreted (Extract/SrcDriver.v) ---- *)
+Definition dispatch_src (name : bytes) (bs : list bytes) (zs : list Z) : option (list tok) :=
+  match SrcDriver.dispatch_src_raw name bs zs with
+  | Some l => Some (map (fun t => match t with inl z => TI z | inr b => TB b end) l)
+  | None => None
+  end.
+
 Definition dispatch (name : bytes) (bs : list bytes) (zs : list Z) : list tok :=
   if name_is name "m.attrs_run" then run_attrs false bs zs
   else if name_is name "s.attrs_run" then run_attrs true bs zs
@@ -643,7 +652,8 @@ Definition dispatch (name : bytes) (bs : list bytes) (zs : list Z) : list tok :=
   match dispatch_helper name bs zs with Some t => t | None =>
   match dispatch_mem name bs zs with Some t => t | None =>
   match dispatch_gen name bs zs with Some t => t | None =>
-  [TI (-97)] end end end end end end end end end end end end end.
+  match dispatch_src name bs zs with Some t => t | None =>
+  [TI (-97)] end end end end end end end end end end end end end end.
 
 Require Extraction.
 Require Import ExtrOcamlBasic.
